@@ -65,6 +65,30 @@ def confirm(rep, results):
         rep.inconclusive.append("solver counterexamples were not reproduced natively; first: %r" % (cands[0],))
 
 
+def confirm_jd(rep, results):
+    """Native confirmation of Julian-Day candidates (kernel replay of JulianDay::new/add/sub vs an independent day count)."""
+    jdc = [c for x in results if x["name"].startswith("JulianDay") for c in x["cands"]]
+    if not jdc:
+        return
+    cases = []
+    for c in jdc[:10]:
+        i = c["inputs"]
+        if i.get("y") and i.get("ordinal"):
+            d = (datetime.date(int(i["y"]), 1, 1) + datetime.timedelta(days=int(i["ordinal"]) - 1)).isoformat()
+            cases.append({"api": "k_julian_day", "date": d, "gmt": float(i.get("gmt") or 0.0), "add": int(i.get("k") or 0)})
+            if i.get("dgmt"):
+                cases.append({"api": "k_julian_day", "date": d, "gmt": float(i.get("gmt") or 0.0) + float(i["dgmt"]), "add": 0})
+    cases += [{"api": "k_julian_day", "date": d, "gmt": g, "add": 0} for d in ("2000-01-01", "1600-02-29", "2399-12-31", "1999-03-01", "1900-01-15", "2100-02-28")
+              for g in (0.0, -5.0, 12.0)]
+    for c, o in zip(cases, kreplay.run(cases)):
+        dd = datetime.date.fromisoformat(c["date"]) + datetime.timedelta(days=c["add"])
+        exp = dd.toordinal() + 1721424.5 - c["gmt"] / 24.0
+        if "value" not in o or abs(o["value"] - exp) > 1e-6 or o["date"] != dd.isoformat():
+            rep.violation("julian-day", "JulianDay(%s, gmt %s, +%d) = %s, expected %.6f on %s" % (c["date"], c["gmt"], c["add"], o, exp, dd), c, o)
+            return
+    rep.inconclusive.append("Julian-Day counterexamples were not reproduced natively; first: %r" % (jdc[0],))
+
+
 def run(rep):
     rep.bounds = {"dates": "every Gregorian-calendar date 1583-01-01..9999-12-31 (Julian Day)", "gmt": "[-12,12]",
                   "RA triple": "true RA in [0,360), daily step in [0.85,1.15] deg, second difference <= 0.02, reduced mod 360, topocentric shift <= 0.003 deg",
@@ -80,21 +104,7 @@ def run(rep):
     obls += [(policy.policy_clauses, (p, ["dhuhr"], "free")) for p in ("None", "AngleBased", "NearestLatitudeFajrIshaInvalid", "SeventhOfNightFajrIshaAlways",
                                                                           "HalfOfNightFajrIshaAlways", "MinutesFromMaghribFajrIshaInvalid")]
     results = base.run_obligations(rep, obls)
-    jdc = [c for x in results if x["name"].startswith("JulianDay") for c in x["cands"]]
-    if jdc:
-        cases = []
-        for c in jdc[:10]:
-            i = c["inputs"]
-            if i.get("y") and i.get("ordinal"):
-                d = (datetime.date(int(i["y"]), 1, 1) + datetime.timedelta(days=int(i["ordinal"]) - 1)).isoformat()
-                cases.append({"api": "k_julian_day", "date": d, "gmt": float(i.get("gmt") or 0.0), "add": int(i.get("k") or 0)})
-        cases += [{"api": "k_julian_day", "date": d, "gmt": g, "add": 0} for d in ("2000-01-01", "1600-02-29", "2399-12-31", "1999-03-01") for g in (0.0, -5.0, 12.0)]
-        for c, o in zip(cases, kreplay.run(cases)):
-            dd = datetime.date.fromisoformat(c["date"]) + datetime.timedelta(days=c["add"])
-            exp = dd.toordinal() + 1721424.5 - c["gmt"] / 24.0
-            if "value" not in o or abs(o["value"] - exp) > 1e-6 or o["date"] != dd.isoformat():
-                rep.violation("julian-day", "JulianDay(%s, gmt %s, +%d) = %s, expected %.6f on %s" % (c["date"], c["gmt"], c["add"], o, exp, dd), c, o)
-                break
+    confirm_jd(rep, results)
     tr = [x for x in results if not x["name"].startswith("JulianDay")]
     if any(x["cands"] for x in tr):
         confirm(rep, tr)
